@@ -41,6 +41,24 @@ def success_paths_pass(ctx, fn, start_after, through, rule, inst, what, extra_er
     return ctx.ob(rule, fn, inst, not rets and bool(through), detail if through else what + ": no such call found")
 
 
+def _only_err_returns(fn, ret, through, errs):
+    """is every definition of _0 that reaches `ret` without passing `through` an Err(..) aggregate (an explicit early error)?"""
+    defs = A.consts_at_return  # (unused, kept for symmetry)
+    r = A.reach(fn, [0], avoid=list(through) + list(errs))
+    seen_ok = False
+    for b in r:
+        for st in fn.blocks[b]["s"]:
+            if st["p"]["l"] == 0 and not st["p"]["p"]:
+                rv = st["rv"]
+                if rv["k"] == "agg" and rv.get("variant") == "Err":
+                    continue
+                seen_ok = True
+        t = fn.blocks[b]["t"]
+        if t["k"] == "call" and t["dest"]["l"] == 0 and not t["dest"]["p"]:
+            seen_ok = True
+    return not seen_ok
+
+
 def run(ctx):
     F = ctx.F
     wp = ctx.fn(R.PERSIST, "R-C09.1")
@@ -125,7 +143,12 @@ def run(ctx):
     if jp:
         for b in R.call_blocks(jp, (R.PERSIST,)):
             rf = A.result_flow(jp, b)
-            ctx.ob("R-C09.2", jp, "writer-persist-result-returned", rf.returned and not rf.swallowed, "Journal::persist returns Writer::persist's result" if rf.returned else "Journal::persist drops the result")
+            okr = rf.returned and not rf.swallowed
+            if not okr and rf.err_blocks and not rf.swallowed and not rf.panics:
+                # explicit match: on the Err edge the function must return an error and not retry
+                defs, retry = A.err_edge_defs_of_return(jp, b, rf.err_blocks, ctx.og(jp))
+                okr = bool(defs) and not retry and all(d[0] == "err" for d in defs)
+            ctx.ob("R-C09.2", jp, "writer-persist-result-returned", okr, "Journal::persist returns Writer::persist's result" if okr else "Journal::persist drops the result")
 
     # ---- R-C09.7 what persist syncs is what was appended: dirty-flag discipline (shared with R-C02.3)
     from . import C02
@@ -142,11 +165,26 @@ def run(ctx):
         bs = R.call_blocks(fn, (callee,))
         ok = False
         detail = "no call to %s" % callee
+        fwd = []
         for b in bs:
             term = ctx.og(fn).of_operand(fn.term(b)["args"][1])
-            ok = term.k == "param" and term.a[0] == 2
+            if term.k == "param" and term.a[0] == 2:
+                fwd.append(b)
             detail = "%s(.., mode := %s)" % (callee, A.tstr(term))
+        ok = bool(fwd)
         ctx.ob("R-C09.3", fn, "mode-forwarded", ok, detail + ("" if ok else " — the caller's persist mode is not what reaches the journal"))
+        # ... on EVERY success path: no shortcut that answers Ok without handing the caller's mode down (e.g. "nothing new
+        # since the last sync" bookkeeping that a journal rotation invalidates)
+        if fwd:
+            errs = list(A.error_starts(fn))
+            r = A.reach(fn, [0], avoid=fwd + errs)
+            rets = [x for x in fn.return_blocks() if x in r]
+            # returns that merely hand back an Err built before the call (poison check) are error paths
+            rets = [x for x in rets if not _only_err_returns(fn, x, fwd, errs)]
+            p_ = A.find_path(fn, [0], rets, avoid=fwd + errs) if rets else None
+            ctx.ob("R-C09.3", fn, "mode-forwarded-on-every-success-path", not rets,
+                   "every success path of %s calls %s with the caller's mode" % (caller.rsplit("::", 1)[-1], callee.rsplit("::", 2)[-2] + "::" + callee.rsplit("::", 1)[-1]) if not rets
+                   else "a success path returns without calling %s with the caller's mode (bb%s): persist(SyncData|SyncAll) can return Ok without the journal having been synced" % (callee, "->bb".join(map(str, p_ or []))))
     bc = ctx.fn("batch::WriteBatch::commit", "R-C09.3")
     if bc:
         ok = False
